@@ -25,6 +25,11 @@ SHAPE_SETS = [["plain", "nl", "empty", "pad"], ["nl", "mid", "blank", "onlynl"]]
 ALL_SHAPES = ["plain", "nl", "mid", "pad", "empty", "blank", "onlynl"]
 
 
+# entry points whose documented signature is (string, flags=None, ...): the flag word may be given positionally
+KNOWN_FLAG_SECOND = frozenset(["write", "write_line", "write_raw", "write_line_raw", "error", "error_line", "error_raw",
+                               "error_line_raw"])
+
+
 def text_of(shape, t):
     return MARK_SHAPES[shape] % t if shape in MARK_SHAPES else NOMARK_SHAPES[shape]
 
@@ -228,13 +233,24 @@ class Subject(object):
             for x in g:
                 getattr(self.outs[x - 1], meth)(val)
 
-    def write(self, name, o, f, explicit_none=False, sh="plain"):
+    def addressed(self, name, o):
+        """the output(s) a call addresses: an output's own method - itself; IO.write* - the standard output, IO.error* -
+        the error output (the documented routing); any other I/O entry point - either"""
+        if self.io is None:
+            return [o]
+        if name.startswith("error"):
+            return [2]
+        if name.startswith("write"):
+            return [1]
+        return list(range(1, len(self.outs) + 1))
+
+    def write(self, name, o, f, explicit_none=False, sh="plain", positional=False):
         self.t += 1
         t = self.t
         recv = self.receiver(o)
         ent = [e for e in entries(type(recv)) if e["name"] == name]
         ev = dict(base_event("write"), role=self.role, name=name, o=o, f=f, t=t, sh=sh,
-                  adr=list(range(1, len(self.outs) + 1)) if self.io is not None else [o])
+                  adr=self.addressed(name, o))
         if not ent:
             ev["res"] = "NoSuchEntry"
             return ev
@@ -243,7 +259,11 @@ class Subject(object):
         args = [text_of(sh, t)] * ent["ntext"]
         kw = {}
         if ent["hasFlags"] and (f != NOFLAGS or explicit_none):
-            kw["flags"] = None if f == NOFLAGS else f
+            if positional and ent["ntext"] == 1 and name in KNOWN_FLAG_SECOND:
+                # the documented order of every write method: (text, flags, ...) - the flag word right after the text
+                args.append(None if f == NOFLAGS else f)
+            else:
+                kw["flags"] = None if f == NOFLAGS else f
         marks = [len(r.data) for r in self.recs]
         try:
             getattr(recv, name)(*args, **kw)
@@ -303,7 +323,8 @@ def run_case(case):
                 s.set("verbosity", op["g"], op["v"])
                 evs.append(dict(base_event("verbosity"), g=list(op["g"]), v=op["v"]))
             elif k == "write":
-                evs.append(s.write(op["name"], op["o"], op["f"], op.get("explicit_none", False), op.get("sh", "plain")))
+                evs.append(s.write(op["name"], op["o"], op["f"], op.get("explicit_none", False), op.get("sh", "plain"),
+                                   op.get("positional", False)))
         return evs
     finally:
         if env_cols is None:
@@ -378,7 +399,8 @@ def ops_of(beh):
         elif k == "verbosity":
             ops.append({"op": "verbosity", "g": sorted(h["g"]), "v": h["v"]})
         elif k == "write":
-            ops.append({"op": "write", "name": h["name"], "o": h["o"], "f": h["f"], "sh": h["sh"]})
+            ops.append({"op": "write", "name": h["name"], "o": h["o"], "f": h["f"], "sh": h["sh"],
+                        "positional": (h["t"] + max(h["f"], 0)) % 2 == 0, "explicit_none": h["t"] % 2 == 0})
     return ops
 
 
@@ -517,8 +539,19 @@ def run(ctx):
                             ops += [{"op": "new"}, {"op": "config", "q": q, "v": v}]
                             for sh in (shapes if ent["ntext"] else ["plain"]):
                                 ops.append({"op": "write", "name": ent["name"], "o": 1, "f": f, "sh": sh,
-                                            "explicit_none": (q + v) % 2 == 1})
+                                            "explicit_none": (q + v) % 2 == 1, "positional": (q + v + len(ops)) % 2 == 0})
                                 ctx.count()
+                # the two outputs of an I/O configured independently (quiet / verbosity on one of them only, both directions)
+                if s.io is not None:
+                    for one, other in (([1], [2]), ([2], [1])):
+                        for q, v in ((True, 0), (False, 4), (True, 4), (False, 1)):
+                            for f in (FLAGWORDS if ent["hasFlags"] else [NOFLAGS]):
+                                ops += [{"op": "new"}, {"op": "quiet", "g": other, "q": False}, {"op": "verbosity", "g": other, "v": 0},
+                                        {"op": "quiet", "g": one, "q": q}, {"op": "verbosity", "g": one, "v": v},
+                                        {"op": "write", "name": ent["name"], "o": 1, "f": f, "sh": shapes[len(ops) % 2],
+                                         "positional": len(ops) % 4 < 2}]
+                                ctx.count()
+                                ctx.nontriv(("split", kind, dec, r.get("cls", ""), ent["name"], one[0], q, v, f))
                             if f > 0 and not q:
                                 ctx.nontriv(("tab", kind, dec, r.get("cls", ""), ent["name"], v, f))
                 case = {"real": r, "ops": ops}
@@ -600,7 +633,7 @@ def random_ops(rng, real, n):
             e = rng.choice(ents)
             f = rng.choice(FLAGWORDS) if e["hasFlags"] else NOFLAGS
             ops.append({"op": "write", "name": e["name"], "o": 1 if s.io is not None else rng.randint(1, nouts), "f": f,
-                        "sh": rng.choice(ALL_SHAPES), "explicit_none": rng.random() < 0.5})
+                        "sh": rng.choice(ALL_SHAPES), "explicit_none": rng.random() < 0.5, "positional": rng.random() < 0.5})
     return ops
 
 
